@@ -121,7 +121,7 @@ class CostMachine(Machine):
         sw = st("swarm")
         rng = st("ops")
         t = FTYPES[idx % len(FTYPES)]
-        spec = fitlib.gen_new(rng, t, nmax=8 if tier == "quick" else 14)
+        spec = fitlib.gen_new(rng, t, nmax=8 if tier == "quick" else 14, numerical_ok=True)
         pre, ops = gen_script(rng, sw, spec, idx, tier, getattr(self, "_prop", "C01"))
         probes = [list(spec["ptrue"])] + [fitlib.gen_point(rng, spec) for _ in range(sw.randint(1, 3))]
         if sw.random() < 0.3:
@@ -254,7 +254,7 @@ class CostMachine(Machine):
             ref.model = lambda q, mvals=mvals: mvals
             ref.hist_unscaled = lambda q, mvals=mvals, N=ref.n_entries: mvals / N
             res.probe("hist_model_from_sibling")
-        if case["knobs"].get("fit_first") and p is not None and pi == 0:
+        if case["knobs"].get("fit_first") and p is not None and pi == 0 and spec.get("bin_eval") != "numerical":
             # "at any parameter point": also after the fit has been run once (the minimizer may have selected another cost node)
             free = ref.n_par - len(ref.fixed)
             if free >= 1 and len(ref.d) >= free + 1:
@@ -382,7 +382,7 @@ class CostMachine(Machine):
         fit = sim.fit
         spec = sim.spec
         which = ["ndf", "gof", "chi2p", "dict"][(pi + case["seed"]) % 4]
-        do_fit = case["knobs"].get("do_fit") and pi == 0 and len(ref.d) >= (ref.n_par - len(ref.fixed)) + 2
+        do_fit = case["knobs"].get("do_fit") and pi == 0 and len(ref.d) >= (ref.n_par - len(ref.fixed)) + 2 and spec.get("bin_eval") != "numerical"
         # C10 is stated relative to "the cost": the known deviation F-C01-1 of how HistFit refers model-relative sources is C01's
         # business and is mirrored here so that only the ndf / GoF / probability formulas can fail this check
         ref.hist_rel_unscaled = True
